@@ -40,8 +40,6 @@ def c09_violations(plan: dict, result: dict):
         elif oc.startswith("crash:"):
             if not crash_fired:
                 sig = "HARNESS:crash-without-fault@" + op
-        elif crash_fired:
-            sig = "swallowed-crash@%s->%s" % (op, oc.split(":")[0])
         elif op in ("parse", "parse_string", "render", "lint"):
             # the property forbids internal exceptions, tracebacks and hangs; which of its own
             # error classes the implementation reports with is its business
